@@ -636,12 +636,15 @@ def rnd_ent(rng: random.Random, n: int, plain_safe: bool) -> dict:
             typ = rng.choice(types)
             r = rng.random()
             lst = []
-            dflt = rng.choice(['', '', '0', '1', '-5', '3.5', 'a b', 'models/x.mdl', '0 0 0'])
+            dflt = rng.choice(['', '', '0', '1', '-5', '3.5', 'a b', 'models/x.mdl', '0 0 0',
+                               # number-like, but not something a bare token can carry
+                               rng.choice([' 5', '12 ', '+3', '1_0', '1e5', 'inf', 'nan', '-', '--5', '\u0665', '\uff11\uff12', ' -7 ', '1e+5'])])
             disp = rnd_text(rng, special) or 'Caption'
             desc = rnd_text(rng, special, longish=rng.random() < 0.15)
             if r < 0.15:
                 typ = 'choices'
-                lst = [{'v': rng.choice(['0', '1', '2', '-1', '0.5', 'on', 'a b', 'x/y']), 'n': rnd_text(rng, False) or 'Choice',
+                lst = [{'v': rng.choice(['0', '1', '2', '-1', '0.5', 'on', 'a b', 'x/y', '1e5', '.5', '1_0', 'inf', '-', '--5', '0x10']),
+                        'n': rnd_text(rng, False) or 'Choice',
                         'tags': rnd_tags(rng)} for _ in range(rng.randint(0, 4))]
             kv = {'key': name.casefold(), 'name': name, 'tags': tags, 'type': typ, 'custom': False, 'disp': disp,
                   'def': dflt, 'desc': desc, 'ro': rng.random() < 0.1, 'rep': rng.random() < 0.1, 'list': lst}
